@@ -2263,6 +2263,70 @@ func scSwitch(r *h.Rng) *prog {
 	return p
 }
 
+// every function-creating form closes over the LexicalEnvironment it is evaluated in (13, 11.1.5, 10.4.2) - except the
+// Function constructor (global environment): function expression, named function expression, getter and setter of an
+// object initialiser, Function(...), a function declared by direct eval code; created inside with / catch / a nested
+// function (each binding the same name x), called AFTER the scope was left, reading and writing x
+func scCloseOver(r *h.Rng) *prog {
+	p := &prog{}
+	p.v("x", "w", "rd", "wr", "mk")
+	p.add(m.X(m.Asg("x", m.Str("global"))), m.X(m.Asg("w", m.Obj(m.Prop{K: "x", V: m.Str("inwith")}))))
+	readBody := []m.N{m.Ret(m.Var("x"))}
+	writeBody := []m.N{m.X(m.Asg("x", m.Var("v"))), m.Ret(m.Var("x"))}
+	// the reader and the writer, made by one of the forms
+	mkRead := func() m.N {
+		switch r.Intn(6) {
+		case 0:
+			return m.Fn{Body: readBody}.Expr()
+		case 1:
+			return m.Fn{Name: "self", Body: readBody}.Expr()
+		case 2, 3:
+			return m.AccFn(false, m.Fn{Body: readBody})
+		case 4:
+			return m.FnCtor(m.Fn{Body: readBody})
+		default:
+			return m.EvalD(nil, []m.Decl{{Name: "ed", F: m.Fn{Name: "ed", Body: readBody}}}, []m.N{m.X(m.Var("ed"))})
+		}
+	}
+	mkWrite := func() m.N {
+		switch r.Intn(4) {
+		case 0:
+			return m.Fn{Params: []string{"v"}, Body: writeBody}.Expr()
+		case 1:
+			return m.Fn{Name: "self", Params: []string{"v"}, Body: writeBody}.Expr()
+		default:
+			return m.AccFn(true, m.Fn{Params: []string{"v"}, Body: writeBody})
+		}
+	}
+	create := []m.N{m.X(m.Asg("rd", mkRead())), m.X(m.Asg("wr", mkWrite())), lg(m.CallV("rd"))}
+	// the scopes around the creation, innermost last
+	var wrap func(k int, inner []m.N) []m.N
+	wrap = func(k int, inner []m.N) []m.N {
+		if k == 0 {
+			return inner
+		}
+		switch r.Intn(3) {
+		case 0:
+			return wrap(k-1, []m.N{m.With(m.Var("w"), inner...)})
+		case 1:
+			return wrap(k-1, []m.N{m.Try([]m.N{m.Throw(m.Str("caught"))}, "x", inner, nil, true, false)})
+		default:
+			return wrap(k-1, []m.N{m.X(m.Call(m.Fn{Vars: []string{"x"}, Body: append([]m.N{m.X(m.Asg("x", m.Str("local")))}, append(inner, m.Ret0())...)}.Expr()))})
+		}
+	}
+	body := wrap(1+r.Intn(3), create)
+	if r.Bool() {
+		p.decl("outerf", m.Fn{Name: "outerf", Vars: []string{"x"}, Body: append([]m.N{m.X(m.Asg("x", m.Str("outerlocal")))}, append(body, m.Ret(m.Var("x")))...)})
+		p.add(lg(m.CallV("outerf")))
+	} else {
+		p.add(body...)
+	}
+	// the scopes are left: call the closures
+	p.add(lg(m.CallV("rd")), lg(m.CallV("wr", m.Str("W1"))), lg(m.CallV("rd")), lg(m.Var("x")), lg(m.Get(m.Var("w"), "x")),
+		lg(m.CallV("wr", m.Str("W2"))), lg(m.CallV("rd")), lg(m.Var("x")), lg(m.Get(m.Var("w"), "x")))
+	return p
+}
+
 func init() {
 	fnScenarios = append(fnScenarios, []fnScenario{
 		{"with-lookup", scWithLookup}, {"with-closure", scWithClosure}, {"with-this", scWithThis}, {"with-var", scWithVar},
@@ -2272,5 +2336,5 @@ func init() {
 		{"labels", scLabels}, {"dup-params", scDupParams}, {"order", scOrder},
 		{"label-capture", scLabelCapture}, {"eval-throw", scEvalThrow},
 		{"hoist-collide", scHoistCollide}, {"label-stale", scLabelStale}, {"host-reentry", scHostReentry},
-		{"bind-chain", scBindChain}, {"forin-init", scForInInit}, {"eval-delete", scEvalDelete}, {"args-define", scArgsDefine}, {"global-redeclare", scGlobalRedeclare}, {"cond-ref", scCondRef}, {"late-global", scLateGlobal}, {"uncaught", scUncaught}, {"fresh-literals", scFreshLiterals}, {"prim-base", scPrimBase}, {"dup-keys", scDupKeys}, {"catch-delete", scCatchDelete}, {"forin-rebind", scForInRebind}, {"fn-ctor", scFnCtor}, {"redeclare-runs", scRedeclareAcrossRuns}, {"completion", scCompletion}, {"switch", scSwitch}}...)
+		{"bind-chain", scBindChain}, {"forin-init", scForInInit}, {"eval-delete", scEvalDelete}, {"args-define", scArgsDefine}, {"global-redeclare", scGlobalRedeclare}, {"cond-ref", scCondRef}, {"late-global", scLateGlobal}, {"uncaught", scUncaught}, {"fresh-literals", scFreshLiterals}, {"prim-base", scPrimBase}, {"dup-keys", scDupKeys}, {"catch-delete", scCatchDelete}, {"forin-rebind", scForInRebind}, {"fn-ctor", scFnCtor}, {"redeclare-runs", scRedeclareAcrossRuns}, {"completion", scCompletion}, {"switch", scSwitch}, {"close-over", scCloseOver}}...)
 }
